@@ -77,39 +77,51 @@ const stableFont = 'Z' // installed in every registry state
 
 func fontName(c byte) string { return gen.FontName(c) }
 
-// ChildMain runs one schedule: verifsim-race c40run <spec.json>.
+// ChildMain runs a batch of schedules in one process: verifsim-race c40run <specs.json>.
+// Only the first schedule of a batch can exercise the lazy first font load (package state).
 func ChildMain(specFile string) int {
 	b, err := os.ReadFile(specFile)
 	if err != nil {
 		fmt.Fprintln(os.Stderr, err)
 		return 2
 	}
-	var spec RunSpec
-	if err := json.Unmarshal(b, &spec); err != nil {
+	var batch Batch
+	if err := json.Unmarshal(b, &batch); err != nil {
 		fmt.Fprintln(os.Stderr, err)
 		return 2
 	}
 	api.DisableConfigDir()
+	for i, spec := range batch.Specs {
+		fmt.Fprintf(os.Stderr, "C40SCHEDULE %d begin\n", i)
+		res, code := runSchedule(spec, batch.Pool, i == 0)
+		if code != 0 {
+			return code
+		}
+		out, _ := json.Marshal(res)
+		fmt.Printf("C40RESULT %d %s\n", i, out)
+		if res.Deadlock != "" {
+			break // parked tasks may hold locks: the process is not reusable
+		}
+	}
+	fmt.Fprintf(os.Stderr, "C40SCHEDULE %d begin\n", len(batch.Specs))
+	return 0
+}
+
+// Batch is what a child process gets.
+type Batch struct {
+	Pool  string    `json:"pool"` // directory with the installed representations of fonts A..D and Z
+	Specs []RunSpec `json:"specs"`
+}
+
+func runSchedule(spec RunSpec, pool string, first bool) (*RunResult, int) {
 	work, err := os.MkdirTemp(os.Getenv("VERIF_SCRATCH"), "c40-")
 	if err != nil {
 		fmt.Fprintln(os.Stderr, err)
-		return 2
+		return nil, 2
 	}
 	defer os.RemoveAll(work)
 	fontDir := filepath.Join(work, "fonts")
-	pool := filepath.Join(work, "pool")
 	os.Mkdir(fontDir, 0755)
-	os.Mkdir(pool, 0755)
-	// representations of fonts A..D and Z, made once by the real installer into the pool
-	tmp := filepath.Join(work, "f.ttf")
-	for _, c := range []byte{'A', 'B', 'C', 'D', stableFont} {
-		os.WriteFile(tmp, gen.Variant(c, 0), 0644)
-		if _, err := font.InstallTrueTypeFont(pool, tmp); err != nil {
-			fmt.Fprintln(os.Stderr, "setup:", err)
-			return 2
-		}
-	}
-	os.Remove(tmp)
 	copyGob := func(c byte) {
 		b, _ := os.ReadFile(filepath.Join(pool, fontName(c)+".gob"))
 		os.WriteFile(filepath.Join(fontDir, fontName(c)+".gob"), b, 0644)
@@ -118,10 +130,11 @@ func ChildMain(specFile string) int {
 		copyGob(c)
 	}
 	font.UserFontDir = fontDir
-	if spec.Preload {
-		if err := font.LoadUserFonts(); err != nil {
+	if spec.Preload || !first {
+		// (re)load S0; in a reused process this also resets the registry of the previous schedule
+		if err := font.ReloadUserFonts(); err != nil {
 			fmt.Fprintln(os.Stderr, "setup:", err)
-			return 2
+			return nil, 2
 		}
 	}
 	docs := map[string][]byte{}
@@ -231,8 +244,9 @@ func ChildMain(specFile string) int {
 					for nm := range want {
 						if _, e := os.Stat(filepath.Join(fontDir, nm)); e != nil {
 							b, _ := os.ReadFile(filepath.Join(pool, nm))
-							os.WriteFile(filepath.Join(fontDir, ".tmp-"+nm), b, 0644)
-							os.Rename(filepath.Join(fontDir, ".tmp-"+nm), filepath.Join(fontDir, nm))
+							// staged under a name the font loader does not take for a font
+							os.WriteFile(filepath.Join(fontDir, ".stage-"+nm+".tmp"), b, 0644)
+							os.Rename(filepath.Join(fontDir, ".stage-"+nm+".tmp"), filepath.Join(fontDir, nm))
 						}
 					}
 					call := simsched.Now()
@@ -284,9 +298,7 @@ func ChildMain(specFile string) int {
 	if os.Getenv("VERIF_C40_TRACE") != "" {
 		res.Trace = s.Trace
 	}
-	out, _ := json.Marshal(res)
-	fmt.Println("C40RESULT " + string(out))
-	return 0
+	return &res, 0
 }
 
 func digestPDF(work string, b []byte, encrypted bool) string {
@@ -312,6 +324,10 @@ type c40 struct{}
 func init() { core.Register(c40{}) }
 
 func (c40) ID() string    { return "C40" }
+
+// MaxWorkers: race-detector processes slow each other down badly in this sandbox (page-fault cost
+// grows with the number of concurrent TSan processes); more than a few in parallel is slower, not faster.
+func (c40) MaxWorkers() int { return 4 }
 func (c40) Level() string { return "exploration" }
 func (c40) Rule() string {
 	return "one schedule = one fresh process built with the race detector: 2-32 caller tasks (validate, optimize, rotate, text watermark with a core font and with a user font, encrypt, merge, split, form fill, font lookups, font reload, and at most one installer that rewrites the font directory through a sequence of sets and reloads) on private in-memory inputs, with the configuration directory disabled; the cooperative scheduler lets exactly one task run and chooses the next one from the seed at every lock/unlock of sync.Mutex/RWMutex (incl. sync.Once) and every file-system call; switch probability and task mix vary per schedule; in half of the schedules without an installer the lazy first font load races with the lookups. Every schedule is also run once without interleaving in another fresh process. Distinct by the hash of the scheduling-point sequence; non-trivial when at least one task switch happened."
@@ -335,9 +351,9 @@ type C40Unit struct {
 }
 
 func (c40) Units(tier string, seed int64) ([]core.Unit, error) {
-	total := 240
+	total := 80
 	if tier != "quick" {
-		total = 6000
+		total = 1600
 	}
 	rng := rand.New(rand.NewPCG(uint64(seed), 0xC40))
 	var units []core.Unit
@@ -381,6 +397,13 @@ func genSpec(rng *rand.Rand) RunSpec {
 		}
 		spec.Tasks[rng.IntN(len(spec.Tasks))] = ts
 		spec.Preload = true
+		// only the installer reloads in such a schedule: another task's reload would pick up a directory
+		// that the harness (not the API) is rewriting underneath it, which is not the property's subject
+		for i := range spec.Tasks {
+			if spec.Tasks[i].Kind == "reload" {
+				spec.Tasks[i] = TaskSpec{Kind: "lookup", Doc: spec.Tasks[i].Doc, Args: []string{"*", fontName('A'), fontName('C')}}
+			}
+		}
 	} else {
 		spec.Preload = rng.IntN(2) == 0
 	}
@@ -418,14 +441,53 @@ func raceSignature(report string) (sig string, detail string) {
 	return strings.Join(tops, " <-> "), report
 }
 
-func runChild(spec RunSpec, trace bool) (*RunResult, string, error) {
+var poolDir string
+
+// fontPool installs fonts A..D and Z once per worker process (with the real installer).
+func fontPool() (string, error) {
+	if poolDir != "" {
+		return poolDir, nil
+	}
+	d, err := os.MkdirTemp("/dev/shm", "c40pool-")
+	if err != nil {
+		d, err = os.MkdirTemp("", "c40pool-")
+		if err != nil {
+			return "", err
+		}
+	}
+	tmp := filepath.Join(d, "f.ttf")
+	for _, c := range []byte{'A', 'B', 'C', 'D', stableFont} {
+		os.WriteFile(tmp, gen.Variant(c, 0), 0644)
+		if _, err := font.InstallTrueTypeFont(d, tmp); err != nil {
+			return "", fmt.Errorf("font pool: %w", err)
+		}
+	}
+	os.Remove(tmp)
+	poolDir = d
+	return d, nil
+}
+
+// CleanupPool removes the worker's font pool.
+func CleanupPool() {
+	if poolDir != "" {
+		os.RemoveAll(poolDir)
+	}
+}
+
+// runChild runs a batch of schedules in one race-detector process and returns the result and the
+// race-detector output of each.
+func runChild(specs []RunSpec, trace bool) ([]*RunResult, []string, error) {
+	pool, err := fontPool()
+	if err != nil {
+		return nil, nil, err
+	}
 	dir, err := os.MkdirTemp(filepath.Join(core.VerifDir, ".build"), "c40-")
 	if err != nil {
-		return nil, "", err
+		return nil, nil, err
 	}
 	defer os.RemoveAll(dir)
-	b, _ := json.Marshal(spec)
-	sf := filepath.Join(dir, "spec.json")
+	b, _ := json.Marshal(Batch{Pool: pool, Specs: specs})
+	sf := filepath.Join(dir, "specs.json")
 	os.WriteFile(sf, b, 0644)
 	bin := filepath.Join(core.VerifDir, ".build", "verifsim-race")
 	cmd := exec.Command(bin, "c40run", sf)
@@ -437,30 +499,43 @@ func runChild(spec RunSpec, trace bool) (*RunResult, string, error) {
 	cmd.Stdout, cmd.Stderr = &stdout, &stderr
 	done := make(chan error, 1)
 	if err := cmd.Start(); err != nil {
-		return nil, "", err
+		return nil, nil, err
 	}
 	go func() { done <- cmd.Wait() }()
 	select {
 	case <-done:
-	case <-time.After(180 * time.Second):
+	case <-time.After(time.Duration(120+60*len(specs)) * time.Second):
 		cmd.Process.Kill()
-		return nil, stderr.String(), fmt.Errorf("child did not finish within 180 s")
+		return nil, nil, fmt.Errorf("child did not finish in time: %s", tailStr(stderr.String(), 1500))
 	}
-	var res *RunResult
+	results := make([]*RunResult, len(specs))
 	sc := bufio.NewScanner(&stdout)
 	sc.Buffer(make([]byte, 1<<20), 1<<28)
 	for sc.Scan() {
-		if strings.HasPrefix(sc.Text(), "C40RESULT ") {
-			res = &RunResult{}
-			if err := json.Unmarshal([]byte(strings.TrimPrefix(sc.Text(), "C40RESULT ")), res); err != nil {
-				return nil, stderr.String(), err
+		var idx int
+		if n, _ := fmt.Sscanf(sc.Text(), "C40RESULT %d ", &idx); n == 1 && idx < len(specs) {
+			line := sc.Text()
+			js := line[strings.Index(line, "{"):]
+			r := &RunResult{}
+			if err := json.Unmarshal([]byte(js), r); err != nil {
+				return nil, nil, err
 			}
+			results[idx] = r
 		}
 	}
-	if res == nil {
-		return nil, stderr.String(), fmt.Errorf("child produced no result: %s", tailStr(stderr.String(), 1500))
+	// split the race detector's output by schedule
+	errs := make([]string, len(specs))
+	parts := strings.Split(stderr.String(), "C40SCHEDULE ")
+	for _, p := range parts[1:] {
+		var idx int
+		if n, _ := fmt.Sscanf(p, "%d begin", &idx); n == 1 && idx < len(specs) {
+			errs[idx] = p
+		}
 	}
-	return res, stderr.String(), nil
+	if results[0] == nil {
+		return nil, nil, fmt.Errorf("child produced no result: %s", tailStr(stderr.String(), 1500))
+	}
+	return results, errs, nil
 }
 
 func tailStr(s string, n int) string {
@@ -587,19 +662,33 @@ func (c40) RunUnit(raw core.Unit, tier string, seed int64) core.UnitResult {
 		return res
 	}
 	rng := rand.New(rand.NewPCG(u.Seed, 40))
+	var specs, solos []RunSpec
 	for i := 0; i < u.N; i++ {
 		spec := genSpec(rng)
-		soloSpec := spec
-		soloSpec.Solo = true
-		solo, serr, err := runChild(soloSpec, false)
-		if err != nil {
-			res.Trouble = fmt.Sprintf("solo child: %v\n%s", err, tailStr(serr, 2000))
-			return res
+		if i > 0 {
+			spec.Preload = true // only the first schedule of a process can meet the lazy first load
 		}
-		conc, cerr, err := runChild(spec, false)
-		if err != nil {
-			res.Trouble = fmt.Sprintf("child: %v\n%s", err, tailStr(cerr, 2000))
-			return res
+		specs = append(specs, spec)
+		so := spec
+		so.Solo = true
+		solos = append(solos, so)
+	}
+	soloRes, soloErr, err := runChild(solos, false)
+	if err != nil {
+		res.Trouble = fmt.Sprintf("solo child: %v", err)
+		return res
+	}
+	concRes, concErr, err := runChild(specs, false)
+	if err != nil {
+		res.Trouble = fmt.Sprintf("child: %v", err)
+		return res
+	}
+	for i, spec := range specs {
+		solo, conc := soloRes[i], concRes[i]
+		if conc == nil || solo == nil {
+			// an earlier schedule of the batch deadlocked and ended the process
+			res.Probes["schedules_not_run_after_deadlock"]++
+			continue
 		}
 		res.Evaluations++
 		res.SimSteps += conc.Steps
@@ -621,10 +710,10 @@ func (c40) RunUnit(raw core.Unit, tier string, seed int64) core.UnitResult {
 		if len(spec.Tasks) >= 16 {
 			res.Probes["schedules_with_16_or_more_tasks"]++
 		}
-		if strings.Contains(serr, "WARNING: DATA RACE") {
+		if strings.Contains(soloErr[i], "WARNING: DATA RACE") {
 			res.Probes["race_reported_without_interleaving"]++
 		}
-		vs := judge(spec, solo, conc, cerr)
+		vs := judge(spec, solo, conc, concErr[i])
 		res.Violations = append(res.Violations, vs...)
 		if len(res.Samples) == 0 {
 			var kinds []string
@@ -644,23 +733,23 @@ func (c40) Replay(payload json.RawMessage) ([]core.Violation, error) {
 	}
 	soloSpec := spec
 	soloSpec.Solo = true
-	solo, _, err := runChild(soloSpec, false)
+	solo, _, err := runChild([]RunSpec{soloSpec}, false)
 	if err != nil {
 		return nil, err
 	}
-	conc, cerr, err := runChild(spec, true)
+	conc, cerr, err := runChild([]RunSpec{spec}, true)
 	if err != nil {
 		return nil, err
 	}
-	fmt.Printf("%d scheduling points, %d switches, trace %s\n", conc.Steps, conc.Switches, conc.TraceSum)
-	for i, st := range conc.Trace {
+	fmt.Printf("%d scheduling points, %d switches, trace %s\n", conc[0].Steps, conc[0].Switches, conc[0].TraceSum)
+	for i, st := range conc[0].Trace {
 		if i > 60 {
 			fmt.Println("  ...")
 			break
 		}
 		fmt.Printf("  step %d: task %d %s -> next %d\n", st.N, st.Task, st.Op, st.Next)
 	}
-	return judge(spec, solo, conc, cerr), nil
+	return judge(spec, solo[0], conc[0], cerr[0]), nil
 }
 
 // Minimise: drop tasks while the same class persists.
